@@ -64,9 +64,12 @@ G_SECTION_KIND = {
     "classes": "classes", "modules": "modules", "warns": "warns", "warnings": "warns",
 }
 N_SECTION_KIND = {
-    "deprecated": "deprecated", "parameters": "parameters", "other parameters": "other parameters", "returns": "returns",
-    "yields": "yields", "receives": "receives", "raises": "raises", "warns": "warns", "examples": "examples",
-    "attributes": "attributes", "functions": "functions", "methods": "functions", "classes": "classes", "modules": "modules",
+    "deprecated": "deprecated", "args": "parameters", "arguments": "parameters", "params": "parameters", "parameters": "parameters",
+    "keyword args": "other parameters", "keyword arguments": "other parameters", "other args": "other parameters",
+    "other arguments": "other parameters", "other params": "other parameters", "other parameters": "other parameters",
+    "returns": "returns", "yields": "yields", "receives": "receives", "raises": "raises", "exceptions": "raises", "warns": "warns",
+    "examples": "examples", "attributes": "attributes", "functions": "functions", "methods": "functions", "classes": "classes",
+    "modules": "modules",
 }
 G_RE_ADMONITION = re.compile(r"^(?P<type>[\w][\s\w-]*):(\s+(?P<title>[^\s].*))?\s*$", re.IGNORECASE)
 _N_NAME = r"\*{0,2}[_a-z][_a-z0-9]*"
@@ -354,7 +357,7 @@ def expected_from_model(style, lines, secs):
             if s[2]:
                 parts = v.lstrip().split("\n")
                 _, rest = parts[0].split(":", 1)
-                v = "\n".join([rest, *parts[1:]])
+                v = "\n".join([rest.lstrip(), *parts[1:]])
             out.append(["text", v, None])
         elif tag == "admonition":
             h, f, la, ind = s[1:]
@@ -488,7 +491,7 @@ ALPHABET = {
 G_HEADERS = ["Args", "Arguments", "Params", "Parameters", "Keyword Args", "Other Parameters", "Raises", "Exceptions", "Returns", "Yields",
              "Receives", "Examples", "Attributes", "Functions", "Methods", "Classes", "Modules", "Warns", "Warnings", "Note", "Warning",
              "Tip", "See also", "Todo"]
-N_HEADERS = ["Deprecated", "Parameters", "Other Parameters", "Returns", "Yields", "Receives", "Raises", "Warns", "Examples", "Attributes",
+N_HEADERS = ["Deprecated", "Parameters", "Args", "Arguments", "Params", "Keyword Args", "Other Args", "Exceptions", "Other Parameters", "Returns", "Yields", "Receives", "Raises", "Warns", "Examples", "Attributes",
              "Functions", "Methods", "Classes", "Modules", "Notes", "Warnings", "See Also", "References"]
 G_ITEMS = ["x: desc", "x (int): desc", "y (str, optional): desc", "(int): desc", "int: desc", "name: desc", "no colon here", "f(a, b): desc",
            "ValueError: when", ": empty name", "(await x): d", "a (lambda: 0): d", "(x := 1): d", "a (f'{x}'): d", "[x for x in y]: d",
